@@ -58,13 +58,17 @@ func c05RealOne(sc c05RealScenario) error {
 		done := make(chan struct{})
 		start := time.Now()
 		go func() { defer close(done); a.multicast(ctx, ipC) }()
-		var at []time.Duration
+		// at[i]: when request i was received; ready[i]: when this consumer began to wait for it. The hand-over of
+		// request i happened within [ready[i], at[i]], so at[i+1]-ready[i] is an UPPER bound of the true wait between the
+		// two requests whatever the load on the machine: if even that is below the minimum, the wait was too short.
+		var at, ready []time.Duration
 		stop := time.After(time.Duration(r.RunMS) * time.Millisecond)
 	loop:
 		for {
+			before := time.Since(start)
 			select {
 			case <-ipC:
-				at = append(at, time.Since(start))
+				at, ready = append(at, time.Since(start)), append(ready, before)
 			case <-stop:
 				break loop
 			}
@@ -75,12 +79,12 @@ func c05RealOne(sc c05RealScenario) error {
 		case <-time.After(5 * time.Second):
 			return verifkit.Violf("C05/real-clock/loop-does-not-stop", "run %d: the multicast loop has not returned 5 s after its context was cancelled", ri)
 		}
-		if len(at) == 0 {
+		if len(at) == 0 && r.RunMS >= 2000 { // (a short run on a busy machine may end before the loop's goroutine has run at all)
 			return verifkit.Violf("C05/real-clock/no-first-request", "run %d of %+v: no unsolicited RA requested in %d ms (the first one is requested at once)", ri, sc.Runs, r.RunMS)
 		}
 		for i := 1; i < len(at); i++ {
-			if gap := at[i] - at[i-1]; gap < 3*time.Second-time.Millisecond {
-				return verifkit.Violf("C05/real-clock/wait-below-min", "run %d of %+v (old timer semantics, real clock): unsolicited RAs requested at %v - a wait of %v, MinRtrAdvInterval is 3s", ri, sc.Runs, at, gap)
+			if gap := at[i] - ready[i-1]; gap < 3*time.Second {
+				return verifkit.Violf("C05/real-clock/wait-below-min", "run %d of %+v (old timer semantics, real clock): unsolicited RAs requested at %v - a wait of at most %v, MinRtrAdvInterval is 3s", ri, sc.Runs, at, gap)
 			}
 		}
 		time.Sleep(time.Duration(r.PauseMS) * time.Millisecond)
